@@ -224,8 +224,26 @@ def check_import(cfg, crate, rep):
         rep.ob("C03.lossless", key2 + "|duplicate-attribute-type", len(dup) >= 1,
                "names are imported by upserting into a type-keyed map (DistinguishedName::push): a subject with a repeated attribute type (DC=com,DC=example or several OUs) is silently collapsed, so certificates issued from the imported CA carry an issuer name different from the CA's subject; the import must fail instead (no duplicate-type refusal dominates the push)",
                expected="a `return Err(..)` guarded by dn.get(&ty).is_some() / contains_key before push", found="no duplicate check", sp=n.get("sp"))
-    multi = [c for c, v, nn, f3 in I2.fails if f3 == fn2 and sum(1 for a in F.atoms(c) if a[0] == "some" and "next" in a[1]) >= 2]
-    rep.ob("C03.import", key2 + "|multi-valued-rdn-refused", len(multi) >= 1, "an RDN with more than one attribute is refused", found=len(multi))
+    # an RDN is taken apart with successive next() calls on its iterator: with a first AND a second attribute present some
+    # refusal must fire; with exactly one attribute none of the "shape" refusals may (whatever the spelling: nested
+    # if-let, a match on the pair, let-else ...)
+    fconds = [c for c, v, nn, f3 in I2.fails if f3 == fn2]
+    nexts = sorted({a for c in fconds for a in F.atoms(c) if a[0] == "some" and "::next(" in a[1]}, key=lambda a: len(a[1]))
+    multi_ok = False
+    found_m = "no refusal depends on a second attribute of the RDN"
+    if len(nexts) >= 2:
+        first, second = nexts[0], nexts[1]
+        def ev(c, asg):
+            full = {a: False for a in F.atoms(c)}
+            for a in F.atoms(c):
+                if a[0] == "opaque" and str(a[1]).startswith("in-loop@"):
+                    full[a] = True
+            full.update({a: v for a, v in asg.items() if a in full})
+            return F.evalf(c, full)
+        both = [c for c in fconds if first in F.atoms(c) and second in F.atoms(c)]
+        multi_ok = any(ev(c, {first: True, second: True}) for c in both) and not any(ev(c, {first: True, second: False}) for c in both)
+        found_m = "refused with two attributes: %s; accepted with one: %s" % (any(ev(c, {first: True, second: True}) for c in both), not any(ev(c, {first: True, second: False}) for c in both))
+    rep.ob("C03.import", key2 + "|multi-valued-rdn-refused", multi_ok, "an RDN with more than one attribute is refused (and one with exactly one attribute is not refused for its shape)", found=found_m)
     other = [c for c, v, nn, f3 in I2.fails if f3 == fn2 and sum(1 for a in F.atoms(c) if a[0] == "eq" and "Tag::" in str(a[2])) >= 6]
     rep.ob("C03.import", key2 + "|unknown-tag-refused", len(other) >= 1, "an attribute value with any other tag is refused", found=len(other))
 
